@@ -74,6 +74,28 @@ def r2_rekey_flows(ctx):
         r.anchor_missing("ChangePassword::build")
         return
     f = fns[0]
+    # the two key derivations: the current key from the OLD vault's kdf/salt/seed
+    # (self.vault), the new key from the NEW vault's (the `vault` parameter) only
+    for kname, want_old in (("current_private_key", True), ("new_private_key", False)):
+        kf = ws.find_fns(r"^sos_vault::change_password::ChangePassword(::<.*>)?::%s$" % kname)
+        if not kf:
+            r.anchor_missing("ChangePassword::" + kname)
+            continue
+        kb = kf[0].main
+        kfg = FlowGraph(ws, kf[0])
+        for i, t in idioms.real_calls(kb):
+            if cname(t) != "into_private":
+                continue
+            for ai, a in enumerate(t["args"][1:], 1):
+                sl = kfg.back_from_operand(kb, a)
+                reads_old = bool(sl.reads_field("vault", "ChangePassword"))
+                k = "%s|into_private-arg%d" % (kf[0].root, ai)
+                if reads_old == want_old:
+                    r.ok(k, cfg.loc(kb, i), "derivation parameter %d comes from %s" % (ai, "the current vault (self.vault)" if want_old else "the new vault (parameter), not self.vault"), work=len(sl.nodes))
+                else:
+                    r.violation(k, cfg.loc(kb, i),
+                                "%s derives the key with parameter %d taken from %s: the key that re-encrypts the folder does not match what the new header records (a seeded folder cannot be unlocked with either password afterwards)" % (
+                                    kname, ai, "the OLD vault (self.vault)" if not want_old else "something other than the current vault"), work=len(sl.nodes))
     body = cfg.code_body(ws, f)
     fg = FlowGraph(ws, f)
     live = cfg.live_blocks(body)
@@ -258,6 +280,26 @@ def r5_cipher_change_runs(ctx):
                 r.violation(k, cfg.loc(body, bi),
                             "is_empty can answer true without looking at `%s`: a conversion that still has work in `%s` is treated as empty and change_cipher returns Ok without converting" % (f, f),
                             work=len(live), witness=cfg.path_lines(body, cfg.find_path(body, [0], [bi], cut_blocks=rf)))
+    # compare_cipher: a folder needs converting when its cipher OR its KDF differs
+    # from the target — the identity test and the folder filter must both look at both
+    cfs = ws.find_fns(r"LocalAccount>::compare_cipher$")
+    if not cfs:
+        r.anchor_missing("LocalAccount::compare_cipher")
+    for cf in cfs:
+        acc = {}
+        for b in cf.bodies:
+            names = {cname(t) for _i, t in idioms.real_calls(b) if re.search(r"vault::Summary::(cipher|kdf)$", t.get("callee") or "")}
+            if names:
+                acc[b.path] = (names, cfg.loc(b))
+        if not acc:
+            r.anchor_missing("Summary::cipher / Summary::kdf comparisons in compare_cipher")
+        for bp, (names, loc) in sorted(acc.items()):
+            k = "%s|compares-cipher-and-kdf" % bp
+            if names >= {"cipher", "kdf"}:
+                r.ok(k, loc, "compares both cipher() and kdf() of the folder summary", work=1)
+            else:
+                r.violation(k, loc, "this part of compare_cipher looks at %s only: a folder that differs in the %s alone is not selected for conversion, while change_cipher still reports success" % (
+                    sorted(names), "/".join(sorted({"cipher", "kdf"} - names))), work=1)
     for fn in ws.find_fns(r"::change_cipher$"):
         if fn.crate in idioms.TEST_CRATES:
             continue
